@@ -218,3 +218,8 @@ def only_remote_value_process_reads_decoded_data():
     from pyvc.framecheck import readers_of_attribute
 
     assert readers_of_attribute("decoded_data") == ["core/group_address_dpt.py", "remote_value/remote_value.py", "telegram/telegram.py"]
+
+
+ASSUMPTIONS = [
+    "datapoint transcoders are pure functions of the payload (C07/C08)",
+]
